@@ -99,6 +99,9 @@ def op_strategy(queries):
         st.tuples(st.just('flag_flip'), CL, SCRIPT, SCRIPT),
         st.tuples(st.just('late_refresh'), CL, SCRIPT, SCRIPT, MPTX, BLOCK),
         st.tuples(st.just('late_refresh'), CL, SCRIPT, SCRIPT, MPTX, BLOCK),
+        # a new client connects and subscribes (headers, one script) just as the session manager
+        # is told about a new block, while the tip-header read of that notification is in flight
+        st.tuples(st.just('late_client'), SCRIPT, BLOCK, st.sampled_from([0.0, 0.5, 3.0])),
         st.tuples(st.just('sleep'), st.integers(0, len(SLEEPS) - 1)),
         st.tuples(st.just('sleep'), st.integers(0, len(SLEEPS) - 1)),
         st.tuples(st.just('quiesce')),
@@ -182,6 +185,8 @@ class SystemMachine:
         self.since = {'block': False, 'mempool': False, 'reorg': False}
         self.status_at_last_quiesce = {}
         self.violation = None
+        self.late_armed = False
+        self.bg_tasks = []
 
     # ---- plumbing -----------------------------------------------------------------------------
     def on_write(self, client, kind, msg):
@@ -299,6 +304,9 @@ class SystemMachine:
             await self.server.quiesce()
         except NoConvergence as e:
             raise Violation(f'server does not become quiescent: {e}', 'no_convergence')
+        for t in self.bg_tasks:
+            await t         # (a harness task: its exceptions are harness errors)
+        del self.bg_tasks[:]
         if self.violation:
             raise Violation(*self.violation)
         self.info['quiesces'] += 1
@@ -481,6 +489,35 @@ class SystemMachine:
             c = self.client(op[1])
             if c is not None:
                 self.send(c, 'blockchain.headers.subscribe', [], {'kind': 'hsub'})
+        elif kind == 'late_client':
+            if len(self.clients) >= 6 or self.late_armed:
+                return
+            self.late_armed = True
+            target = w.height + 1
+            script = op[1]
+            machine = self
+
+            async def arrive():
+                c = await machine.connect()
+                machine.send(c, 'blockchain.headers.subscribe', [], {'kind': 'hsub'})
+                machine.subscribed[c].add(script)
+                machine.send(c, 'blockchain.scripthash.subscribe',
+                             [W.scripthash_hex(W.SCRIPTS[script])], {'kind': 'sub', 'script': script})
+                machine.info['classes'].add('client_subscribes_during_block_notification')
+
+            def hook(method, touched, height):
+                machine.note_queryable(method, touched, height)
+                if method == 'notify' and machine.late_armed and height >= target:
+                    machine.late_armed = False
+                    machine.server.on_notify_call = machine.note_queryable
+                    # the tip-header read of this notification is delivered that much later
+                    if op[3]:
+                        loop.slow_jobs.append(['read_headers', 1, 0.0, op[3]])
+                    machine.bg_tasks.append(asyncio.ensure_future(arrive()))
+            self.server.on_notify_call = hook
+            w.extend([op[2]])
+            self.max_tip_seen = max(self.max_tip_seen, w.height)
+            self.since['block'] = True
         elif kind == 'slow_job':
             # the n-th further worker job of that name is slow: executed now and delivered late (a
             # read crossing whatever the block processor does meanwhile) or executed late
